@@ -47,6 +47,41 @@ def declare(spec):
         raises={'KeyError': ['is_str(name)', 'not (lower(as_str(name)) in self._watchers_names)'],
                 'AttributeError': ['not is_str(name)']},
         modifies=[]))
+    # ---- rm_watcher: a coroutine holding the exclusive slot; its directory update is complete before its
+    # first suspension (detached prefix), and the watcher is stopped at the end unless nostop
+    from pyvc.rely import Rely
+    PROT = spec.consts['$PROT']
+    spec.relies['arb'] = Rely(
+        'arb', stable=['excl', 'Process.pid', 'Process.wid', 'Process.started'],
+        facts=['implies(excl, %s)' % PROT, spec.consts['$LOGS']],
+        note='suspension of an arbiter-level operation that owns the slot: protected fields (incl. the watcher '
+             'directory, statuses, tables) stable under excl (R-EXCL); kernel, logs, clock may change')
+    KEY = 'lower(as_str(name))'
+    RM_DIR = [
+        'dir1(self)', 'dir2(self)', 'dir3(self)', 'dir4(self)',
+        'is_str(name)', 'old(%s in self._watchers_names)' % KEY,
+        # the name is gone from both structures, in every letter case, and nothing else moved
+        ('removed-from-dict', 'not (%s in self._watchers_names)' % KEY),
+        ('removed-from-list', 'not contains(self.watchers, old(self._watchers_names[%s]))' % KEY),
+        ('others-kept', 'forall(STR, lambda k: implies(k != %s, (k in self._watchers_names) == '
+         '(k in old(self._watchers_names)) and self._watchers_names[k] == old(self._watchers_names)[k]))' % KEY),
+        'length(self.watchers) == length(old(self.watchers)) - 1',
+    ]
+    WFALL = ("forall(INT, lambda i: implies(0 <= i and i < length(self.watchers), wf_w(self.watchers[i]) and "
+             "self.watchers[i].graceful_timeout >= 0))")
+    rm = Contract(
+        'circus.arbiter:Arbiter.rm_watcher', kind='coroutine', rely='arb', params={'name': VAL, 'nostop': BOOL},
+        requires=['excl', 'dir_wf(self)', WFALL],
+        ensures=RM_DIR + [
+            ('stopped-unless-nostop', "implies(not nostop, old(self._watchers_names[%s])._status == 'stopped')" % KEY),
+            'excl'],
+        raises={'KeyError': ['is_str(name)', 'not (%s in old(self._watchers_names))' % KEY,
+                             "same_field('Arbiter.watchers', 'Arbiter._watchers_names')"],
+                'AttributeError': ['not is_str(name)', "same_field('Arbiter.watchers', 'Arbiter._watchers_names')"]},
+        modifies=['*'])
+    rm.detached = Contract('circus.arbiter:Arbiter.rm_watcher', params=rm.params, requires=[],
+                           ensures=RM_DIR, modifies=['*'])
+    spec.add(rm)
     spec.add(Contract('circus.arbiter:Arbiter.numwatchers', ret=INT,
                       ensures=['result == length(self.watchers)'], modifies=[], inline='length(self.watchers)'))
     spec.add(Contract(
